@@ -11,29 +11,12 @@ From Coq Require Import NArith List Bool Lia ZArith.
 From Coq Require Import ZifyN ZifyBool ZifyNat.
 From DV Require Import C05.Schema C05.ProofsA C05.ProofsB C05.ProofsD.
 From DV Require C05.Model C05.Proofs.
-From DV Require Import Base.Outcome Base.Bytes Base.Names Base.PName C02.Gen C02.Model
+From DV Require Import Base.Outcome Base.Bytes Base.Names Base.PName C02.Gen C02.Model C02.SchemaModel
   C02.ProofsBasic C02.ProofsClone C02.ProofsRun C02.ProofsName C02.ProofsComp C02.ProofsStatic C02.ProofsHash C02.ProofsTop
-  C02.ProofsLayout C02.ProofsRead C02.ProofsWrite.
+  C02.ProofsLayout C02.ProofsRead C02.ProofsWrite C02.ProofsBuild C02.ProofsTotal.
 Import ListNotations.
 Local Open Scope N_scope.
 Ltac Zify.zify_post_hook ::= Z.div_mod_to_equations.
-
-(* ---- a schema value as record data items *)
-Definition item_of (f : field) (x : fval) : ritem :=
-  match f, x with
-  | FName true _, VName n => RName n
-  | FName false _, VName n => RNameU n
-  | _, _ => RBytes (compose_field false f x)
-  end.
-
-Fixpoint items_of (fs : list field) (v : value) : list ritem :=
-  match fs, v with
-  | f :: fs', x :: v' => item_of f x :: items_of fs' v'
-  | _, _ => []
-  end.
-
-Definition schema_record (owner : name) (ty cls ttl : N) (s : schema) (v : value) : rrecord :=
-  mkR owner ty cls ttl false (items_of (s_fields s) v).
 
 (* equality of values up to the ASCII case of embedded names *)
 Definition fval_eq (a b : fval) : Prop :=
@@ -182,7 +165,7 @@ Theorem schema_record_reread c owner ty cls ttl s v w w' :
   exists r' e1 v',
     rd_record (w_buf w') (mlen (w_buf w)) (map shape_of (items_of (s_fields s) v)) = Ok (r', mlen (w_buf w')) /\
     record_eqb r' (schema_record owner ty cls ttl s v) = true /\
-    decode_name (w_buf w') (mlen (w_buf w)) (mlen (w_buf w')) = Ok (r_owner r', e1) /\
+    (exists n', decode_name (w_buf w') (mlen (w_buf w)) (mlen (w_buf w')) = Ok (n', e1) /\ name_eqb n' owner = true) /\
     parse_rdata pname_dec s (w_buf w') (e1 + 10) (mlen (w_buf w')) = Ok v' /\ Forall2 fval_eq v' v.
 Proof.
   intros HW L12 Hs Hp Hv Ho Ht Hc Hl H.
@@ -194,19 +177,9 @@ Proof.
   destruct HR as (e1 & Hn & _ & Hi & L1 & L2 & _). cbn [schema_record r_owner r_data] in Hn, Hi.
   set (m := w_buf w') in *. set (e := mlen m) in *.
   destruct (NameAtO_decode m (okb e) e (mlen (w_buf w)) owner e1 (okb_lt e) Hn) as (n' & D & Q).
-  (* the owner the record reader saw is the one decode_name returns *)
-  assert (Er : r_owner r' = n').
-  { unfold rd_record in RD. unfold e in D.
-    assert (D' : decode_name m (mlen (w_buf w)) (mlen m) = Ok (n', e1)) by exact D.
-    rewrite D' in RD. cbn [bind fst snd] in RD.
-    repeat match type of RD with
-    | context [bind ?x _] => destruct x as [[? ?]| | |]; cbn [bind fst snd] in RD; try discriminate
-    | context [if ?b then _ else _] => destruct b; try discriminate
-    end.
-    injection RD as <- _. reflexivity. }
   unfold wf_schema_full in Hs. apply andb_true_iff in Hs as [Hsf Hk]. unfold wf_schema in Hsf.
   destruct (parse_fields_items m (okb e) e (okb_lt e) (s_fields s) v (e1 + 10) Hsf Hvv Hi ltac:(unfold e; lia)) as (v' & PF & F2).
-  exists r', e1, v'. split; [exact RD|]. split; [exact RE|]. split; [rewrite Er; exact D|]. split; [|exact F2].
+  exists r', e1, v'. split; [exact RD|]. split; [exact RE|]. split; [exists n'; split; [exact D|exact Q]|]. split; [|exact F2].
   unfold parse_rdata, parse_type. rewrite Hp.
   pose proof (items_fixed_len m (okb e) (s_fields s) v (e1 + 10) e Hvv Hi) as Lfix.
   destruct (s_long s) as [k|].
@@ -215,4 +188,75 @@ Proof.
     destruct (N.ltb_spec 65535 (e - (e1 + 10) - k)); [lia|].
     rewrite PF. cbn [bind fst snd post_check]. rewrite N.eqb_refl. reflexivity.
   - rewrite PF. cbn [bind fst snd post_check]. rewrite N.eqb_refl. reflexivity.
+Qed.
+
+(* without embedded names the value comes back exactly *)
+Definition not_vname (x : fval) : Prop := match x with VName _ => False | _ => True end.
+Lemma fval_eq_exact v' v : Forall2 fval_eq v' v -> Forall not_vname v -> v' = v.
+Proof.
+  intros H. induction H as [|a b l' l Hab _ IH]; intros F; [reflexivity|].
+  inversion F as [|? ? Hb Fl]; subst. rewrite (IH Fl). f_equal.
+  destruct a, b; cbn [fval_eq not_vname] in *; try exact Hab; contradiction.
+Qed.
+
+(* ---- such a record is an admissible operation of a run *)
+Lemma schema_record_wf_op owner ty cls ttl s v :
+  wf_value s v = true -> name_ok owner -> ty < 65536 -> cls < 65536 -> ttl < 4294967296 ->
+  wf_op_sized (OpR (schema_record owner ty cls ttl s v)).
+Proof.
+  intros Hv Ho Ht Hc Hl. unfold wf_value in Hv. apply andb_true_iff in Hv as [Hv _]. apply andb_true_iff in Hv as [Hvv Htot].
+  split.
+  - cbn [wf_op]. unfold wf_r, schema_record; cbn [r_owner r_type r_class r_ttl r_data].
+    repeat split; auto; try apply Ho. apply wf_items_of. exact Hvv.
+  - unfold schema_record; cbn [r_data]. rewrite rdata_ulen_of by exact Hvv.
+    apply N.leb_le in Htot. unfold total_len in Htot. rewrite (wf_fvals_any _ _ _ Hvv false) in Htot. exact Htot.
+Qed.
+
+(* ---- every row of C05's table of record types *)
+Lemma table_post_none : forallb (fun r : N * schema => match s_post (snd r) with PNone => true | _ => false end)
+                          C05.Model.schema_table_regular = true.
+Proof. reflexivity. Qed.
+
+Lemma schema_of_post t s : C05.Model.schema_of t = Some s -> s_post s = PNone.
+Proof.
+  intros H. apply C05.Proofs.schema_of_cases in H as [H| ->]; [|reflexivity].
+  pose proof table_post_none as T. rewrite forallb_forall in T. specialize (T (t, s) H). cbn [snd] in T.
+  destruct (s_post s); [reflexivity|discriminate|discriminate].
+Qed.
+
+Theorem table_record_reread c owner cls ttl t s v w w' :
+  WG c ok12 w -> 12 <= mlen (w_buf w) ->
+  C05.Model.schema_of t = Some s -> wf_value s v = true ->
+  name_ok owner -> t < 65536 -> cls < 65536 -> ttl < 4294967296 ->
+  compose_record c (schema_record owner t cls ttl s v) w = WOk w' ->
+  WG c ok12 w' /\
+  exists r' e1 v',
+    rd_record (w_buf w') (mlen (w_buf w)) (map shape_of (items_of (s_fields s) v)) = Ok (r', mlen (w_buf w')) /\
+    record_eqb r' (schema_record owner t cls ttl s v) = true /\
+    (exists n', decode_name (w_buf w') (mlen (w_buf w)) (mlen (w_buf w')) = Ok (n', e1) /\ name_eqb n' owner = true) /\
+    parse_rdata pname_dec s (w_buf w') (e1 + 10) (mlen (w_buf w')) = Ok v' /\ Forall2 fval_eq v' v.
+Proof.
+  intros HW L Hs Hv Ho Ht Hc Hl H.
+  eapply schema_record_reread; eauto; [eapply C05.Proofs.schema_of_wf|eapply schema_of_post]; eauto.
+Qed.
+
+(* ---- the driver entry point is the identity on schema records *)
+Lemma items_wire_of fs : forall v, wf_fvals false fs v = true -> items_wire (items_of fs v) = compose_fields false fs v.
+Proof.
+  induction fs as [|f fs IH]; intros [|x v] H; cbn [wf_fvals] in H; try discriminate; [reflexivity|].
+  apply andb_true_iff in H as [Hx Hv]. unfold items_wire in *. cbn [items_of map concat compose_fields]. rewrite IH by exact Hv. f_equal.
+  destruct f as [w|k|cp lw|chk| | |mn|ck], x; cbn [wf_fval] in Hx; try discriminate; try reflexivity.
+  destruct cp; reflexivity.
+Qed.
+
+Theorem typed_record_fixpoint owner t cls ttl s v :
+  C05.Model.schema_of t = Some s -> wf_value s v = true ->
+  c02_typed_record (schema_record owner t cls ttl s v) = (schema_record owner t cls ttl s v, true).
+Proof.
+  intros Hs Hv. unfold c02_typed_record, c02_schema_items. cbn [schema_record r_type r_data r_owner r_class r_ttl]. rewrite Hs.
+  pose proof Hv as Hv0. unfold wf_value in Hv0. apply andb_true_iff in Hv0 as [Hv0 _]. apply andb_true_iff in Hv0 as [Hvv _].
+  rewrite items_wire_of by exact Hvv.
+  pose proof (parse_compose pname_dec pname_dec_complete s v [] [] (C05.Proofs.schema_of_wf t s Hs) Hv) as P.
+  cbn [app] in P. rewrite app_nil_r in P. unfold compose in P. change (len []) with 0 in P. rewrite N.add_0_l in P.
+  rewrite P. reflexivity.
 Qed.
